@@ -347,8 +347,17 @@ def run_unit(unit, tier='quick', seed=0, keep=None, solver=None, rlimit=30):
         if tier == 'thorough' and not tool_errors:
             names = set(f['obligation'] for f in failures)
             for k in range(1, 5):
-                r = run_verus(main_p, seed + 1 + k, rlimit, None, 8)
+                with ThreadPoolExecutor(max_workers=14) as ex:
+                    fm = ex.submit(run_verus, main_p, seed + 1 + k, rlimit, None, 4)
+                    fps = [ex.submit(run_verus, pp, seed + 1 + k, rlimit, None, 2) for (_, _, _, pp) in part_files]
+                    r = fm.result()
+                    prs = [f.result() for f in fps]
                 fk, tek, rlk = classify(asm, r, unit)
+                for (pitem, pk, pasm, pp), prun in zip(part_files, prs):
+                    pf, pte, prl = classify(pasm, prun, unit)
+                    fk += pf
+                    tek += pte
+                    rlk += prl
                 nk = set(f['obligation'] for f in fk)
                 res.seeds.append({'seed': seed + 1 + k, 'solver': 'z3', 'failed': sorted(nk), 'wall_s': round(r['wall_s'], 2),
                                   'rlimit_hits': len(rlk)})
